@@ -531,7 +531,20 @@ func usesGhost(cl *Clause) bool {
 	if cl.Fn == nil {
 		return false
 	}
-	return bodyUsesGhost(cl.Fn.Decl.Body, ghostSpecs)
+	// direct calls of ghost builtins are never executable in a clause; specification functions are looked up in the
+	// clause's own package (bare name) or by their qualified name
+	pkg := ""
+	if cl.Fn.Pkg != nil {
+		pkg = cl.Fn.Pkg.Name
+	}
+	local := map[string]bool{}
+	for k := range ghostSpecs {
+		local[k] = true
+		if strings.HasPrefix(k, pkg+".") {
+			local[strings.TrimPrefix(k, pkg+".")] = true
+		}
+	}
+	return bodyUsesGhost(cl.Fn.Decl.Body, local)
 }
 
 // ghostSpecs: specification functions (by bare name and by pkg.name) that read ghost state themselves or through other
@@ -540,16 +553,31 @@ func usesGhost(cl *Clause) bool {
 var ghostSpecs = map[string]bool{}
 
 func bodyUsesGhost(body ast.Node, extra map[string]bool) bool {
+	return bodyUsesGhostIn(body, extra, "")
+}
+
+// realHelpers: ghost-named helpers (fold, foldH) that a package's contract file implements for real (with a loop over
+// the string), e.g. package sourcemap, where the write history can be recovered from the finished string. Specification
+// functions built on them are executable; in packages where the helper is an inert stub they are not.
+var realHelpers = map[string]bool{}
+
+func bodyUsesGhostIn(body ast.Node, extra map[string]bool, pkg string) bool {
 	found := false
+	isGhost := func(name string) bool {
+		if ghostBuiltins[name] {
+			return pkg == "" || !realHelpers[pkg+"."+name]
+		}
+		return extra[name]
+	}
 	ast.Inspect(body, func(n ast.Node) bool {
 		if ce, ok := n.(*ast.CallExpr); ok {
 			switch f := ce.Fun.(type) {
 			case *ast.Ident:
-				if ghostBuiltins[f.Name] || extra[f.Name] {
+				if isGhost(f.Name) {
 					found = true
 				}
 			case *ast.IndexExpr:
-				if id, ok := f.X.(*ast.Ident); ok && (ghostBuiltins[id.Name] || extra[id.Name]) {
+				if id, ok := f.X.(*ast.Ident); ok && isGhost(id.Name) {
 					found = true
 				}
 			case *ast.SelectorExpr:
@@ -564,19 +592,34 @@ func bodyUsesGhost(body ast.Node, extra map[string]bool) bool {
 }
 
 func (w *World) markGhostSpecs() {
+	hasLoop := func(body ast.Node) bool {
+		l := false
+		ast.Inspect(body, func(n ast.Node) bool {
+			switch n.(type) {
+			case *ast.ForStmt, *ast.RangeStmt:
+				l = true
+			}
+			return !l
+		})
+		return l
+	}
+	for key, sf := range w.SpecDecls {
+		if sf.Decl != nil && sf.Decl.Body != nil && ghostBuiltins[sf.Decl.Name.Name] && (hasLoop(sf.Decl.Body) || sf.Decl.Name.Name == "built") {
+			realHelpers[key] = true
+		}
+	}
 	for changed := true; changed; {
 		changed = false
 		for key, sf := range w.SpecDecls {
-			if sf.Decl == nil || sf.Decl.Body == nil {
+			if sf.Decl == nil || sf.Decl.Body == nil || ghostBuiltins[sf.Decl.Name.Name] {
 				continue
 			}
-			name := sf.Decl.Name.Name
 			if ghostSpecs[key] {
 				continue
 			}
-			if bodyUsesGhost(sf.Decl.Body, ghostSpecs) {
-				ghostSpecs[key] = true  // pkg.name
-				ghostSpecs[name] = true // bare name (calls inside the package)
+			pkg := key[:strings.Index(key, ".")]
+			if bodyUsesGhostIn(sf.Decl.Body, ghostSpecs, pkg) {
+				ghostSpecs[key] = true // pkg.name (calls from other packages)
 				changed = true
 			}
 		}
